@@ -141,6 +141,8 @@ def expected_flows(b, spec):
             if c.get('cap'):
                 cap = (ck, 'CAP')
                 add(cap, +1, vn(b, ck, 'CAP', 'DIV'), cur)
+                if c['cap'].get('portfolio_share'):
+                    add(cap, +1, vn(b, ck, 'CAP', 'INTDEP'), cur)
                 add(cap, -1, vn(b, ck, 'CAP', 'DEM_' + good), cur)
                 add(cap, -1, vn(b, ck, 'CAP', 'T'), cur)
                 add(bus, -1, vn(b, ck, 'BUS', 'DIV'), cur)
@@ -331,6 +333,11 @@ def check_markets(J, b, spec):
                 c = [c for c in regions if c['key'] == h[0]]
                 if h[1] == 'HH' and c and c[0]['hh']['portfolio']:
                     continue
+                if h[1] == 'CAP' and c and c[0].get('cap') and c[0]['cap'].get('portfolio_share'):
+                    J.equal_series('asset_demands_do_not_add_up_to_wealth', 'DEM_DEP + DEM_MON = F (capitalists)',
+                                   lambda k, a=vn(b, h[0], 'CAP', 'DEM_DEP'), m=vn(b, h[0], 'CAP', 'DEM_MON'): J.v(a, k) + J.v(m, k),
+                                   lambda k, f=vn(b, h[0], 'CAP', 'F'): J.v(f, k), k_from=1, ctx={'sector': b.sectors[h].FullCode})
+                    continue
                 J.equal_series('default_money_demand_not_financial_assets', 'DEM_MON = F',
                                lambda k, n=b.sectors[h].GetVariableName('DEM_MON'): J.v(n, k),
                                lambda k, n=b.sectors[h].GetVariableName('F'): J.v(n, k), k_from=1,
@@ -338,6 +345,7 @@ def check_markets(J, b, spec):
         if g['deposits']:
             dep = b.sectors[(gkey, 'DEP')]
             dholders = [(c['key'], 'HH') for c in regions if c['hh']['portfolio']]
+            dholders += [(c['key'], 'CAP') for c in regions if c.get('cap') and c['cap'].get('portfolio_share')]
             if g['form'] in ('treasury_cb', 'gold_cb'):
                 dholders.append((gkey, 'CB'))
             dnames = [b.sectors[h].GetVariableName('DEM_DEP') for h in dholders]
